@@ -10,12 +10,13 @@ use serde_json::{json, Value};
 const NODATA: f64 = -1e10;
 
 /// A small generator built directly from the public constructors.
-/// kind 0: mel-cepstral, 3 LPF taps; kind 1: mel-cepstral, 1 LPF tap, beta > 0; kind 2: LSP stage 2.
+/// kind 0: mel-cepstral, 3 LPF taps; kind 1: mel-cepstral, 1 LPF tap, beta > 0; kind 2: LSP stage 2; kind 4: no LPF stream.
 fn direct(kind: usize, total: usize, fperiod: usize) -> SpeechGenerator {
     let mut rng = Rng::new(1000 + kind as u64);
     let (nmcp, nlpf, stage, beta) = match kind {
         0 => (4, 3, 0, 0.0),
         1 => (3, 1, 0, 0.25),
+        4 => (3, 0, 0, 0.0), // no low-pass stream at all (a two-stream voice)
         _ => (4, 3, 2, 0.0),
     };
     let vocoder = Vocoder::new(nmcp, nlpf, stage, false, 16000, 0.25, beta, 1.5, fperiod);
@@ -36,7 +37,9 @@ fn direct(kind: usize, total: usize, fperiod: usize) -> SpeechGenerator {
         // every trajectory depends on the frame (a missing frame offset in any of the three must show): the low-pass
         // taps differ from frame to frame and are not symmetric
         // (a single tap of exactly 1 on every other frame: pure pulses, so the excitation is exactly zero between them)
-        lpf.push(if nlpf == 1 { vec![if t % 2 == 0 { 1.0 } else { rng.uniform(0.5, 1.5) }] } else { vec![rng.uniform(0.1, 0.4), 0.5, rng.uniform(0.0, 0.3)] });
+        lpf.push(if nlpf == 0 {
+            Vec::new()
+        } else if nlpf == 1 { vec![if t % 2 == 0 { 1.0 } else { rng.uniform(0.5, 1.5) }] } else { vec![rng.uniform(0.1, 0.4), 0.5, rng.uniform(0.0, 0.3)] });
     }
     SpeechGenerator::new(fperiod, vocoder, sp, lf0, lpf)
 }
@@ -174,7 +177,7 @@ pub fn replay(cases_path: &str, out_path: &str, voice: Option<&String>, labels: 
     let mut runs = 0usize;
     let results = par_map(&cases, |_, case| {
         let mut runs = 0usize;
-        for kind in 0..3 {
+        for kind in [0usize, 1, 2, 4] {
             for fp in [1usize, 5] {
                 runs += 1;
                 if let Some((j, key, msg)) = replay_case(case, kind, fp, None) {
